@@ -144,7 +144,7 @@ def report(prop, tier, seed, t0, contracts, results, lemma_recs, validations, sp
     violations = []
     known_hits = []
     I, _ = get_interp()
-    rdir = os.path.join(VERIF, "replays", prop)
+    rdir = os.path.join(os.environ.get("PYVC_REPLAY_DIR", os.path.join(VERIF, "replays")), prop)
     import hashlib
     MAX_REPLAYS = 8
     n_replayed = 0
@@ -179,7 +179,7 @@ def report(prop, tier, seed, t0, contracts, results, lemma_recs, validations, sp
             try:
                 if o.get("call"):
                     confirmed = native(o["call"])
-                if not confirmed and o.get("smt2"):
+                if not confirmed and o.get("smt2") and any(f in o["smt2"] for f in ("OM", "DIM", "ORD3")):
                     # counterexample refinement (DESIGN 2.8): the model was found with opaque spec functions and is
                     # only a candidate; re-solve the VC with every definition revealed
                     v2, m2 = RP.resolve_with_definitions(o["smt2"], timeout_ms=60000 if tier == "quick" else 300000)
@@ -294,8 +294,9 @@ def report(prop, tier, seed, t0, contracts, results, lemma_recs, validations, sp
         "wall_s": round(time.time() - t0, 2),
         "violations": len(violations),
     }
-    os.makedirs(os.path.join(VERIF, "evidence"), exist_ok=True)
-    json.dump(ev, open(os.path.join(VERIF, "evidence", f"{prop}.json"), "w"), indent=1)
+    evdir = os.environ.get("PYVC_EVIDENCE_DIR", os.path.join(VERIF, "evidence"))
+    os.makedirs(evdir, exist_ok=True)
+    json.dump(ev, open(os.path.join(evdir, f"{prop}.json"), "w"), indent=1)
     for l in lines:
         print(l)
     print(f"{prop} {tier}: functions={len(functions)} cases={len(results)} obligations={len(counted)} "
